@@ -11,6 +11,9 @@ import os
 import re
 import sys
 import time
+import warnings
+
+warnings.simplefilter('ignore')
 
 ROOT = os.path.dirname(os.path.dirname(os.path.abspath(__file__)))
 sys.path.insert(0, ROOT)
@@ -20,6 +23,7 @@ from chisym import harness as H  # noqa: E402
 MODULES = {
     'C01': 'harness.c01',
     'C04': 'harness.c04',
+    'C05': 'harness.c05',
 }
 
 
@@ -37,7 +41,9 @@ def match_known(known, pid, case, cfg, label):
             continue
         if k['property'] != pid or k['case'] != case:
             continue
-        if any(cfg.get(a) != b for a, b in k.get('cfg', {}).items()):
+        if any((cfg.get(a) not in b) if isinstance(b, list) and not isinstance(
+                cfg.get(a), list) else cfg.get(a) != b
+               for a, b in k.get('cfg', {}).items()):
             continue
         if not re.search(k.get('label', '.*'), label):
             continue
